@@ -1029,6 +1029,53 @@ func c03(r *core.Run) {
 			}
 		}
 	})
+
+	r.Check("D2/K2/child-created-only-when-absent", "a fresh node is stored into a children map only when the lookup of that very key in that very map found nothing (replacing an existing child drops its whole subtree: longer routes registered earlier become unreachable and can be registered twice)", func(o *core.O) {
+		n := 0
+		for _, f := range p.PkgFuncs("lib/search") {
+			for _, in := range core.Instrs(f, func(in ssa.Instruction) bool {
+				mu, ok := in.(*ssa.MapUpdate)
+				if !ok {
+					return false
+				}
+				mt, ok := mu.Map.Type().Underlying().(*types.Map)
+				if !ok {
+					return false
+				}
+				pt, ok := mt.Elem().(*types.Pointer)
+				if !ok {
+					return false
+				}
+				nt, ok := pt.Elem().(*types.Named)
+				return ok && nt.Obj().Name() == "node"
+			}) {
+				mu := in.(*ssa.MapUpdate)
+				// constructors fill fresh maps
+				if _, isMake := mu.Map.(*ssa.MakeMap); isMake {
+					continue
+				}
+				n++
+				r.Fn(core.FuncName(f))
+				absent := core.Not(core.BoolVal(func(v ssa.Value) bool {
+					e, ok := v.(*ssa.Extract)
+					if !ok || e.Index != 1 {
+						return false
+					}
+					l, ok := e.Tuple.(*ssa.Lookup)
+					return ok && l.CommaOk && l.X == mu.Map && core.Describe(l.Index) == core.Describe(mu.Key)
+				}))
+				if core.EdgeCount(f, absent) == 0 {
+					o.Fail(p.InstrPos(in), "%s stores a child without first looking the key up in the same map", core.FuncName(f))
+					continue
+				}
+				if w := core.Requires(f, core.Is(in), absent); w != nil {
+					o.Fail(p.InstrPos(w), "%s can replace an existing child node (its subtree is dropped)", core.FuncName(f))
+				}
+			}
+		}
+		o.Site(n)
+	})
+
 }
 
 // c03ValidatorCall matches the calls in handle of an in-package boolean function applied to the method parameter.
